@@ -206,6 +206,10 @@ func (f *machoMarkers) PatchSignature(oldHeader []byte, sigSize int64) (newHeade
 	if err != nil {
 		return
 	}
+	if f.linkEditHdrPos == 0 {
+		err = errors.New("mach-o image has no __LINKEDIT segment to hold the signature")
+		return
+	}
 	// update __LINKEDIT bounds
 	f.patchLinkEdit(newHeader, patch, sigStart, sigSize)
 	// write signature loadcmd
